@@ -5,6 +5,7 @@
 package oidc
 
 //@ import oidcv1 "github.com/istio-ecosystem/authservice/config/gen/go/v1/oidc"
+//@ import configv1 "github.com/istio-ecosystem/authservice/config/gen/go/v1"
 
 // ---------------------------------------------------------------------------------------------
 // SessionStore: the abstract session map (C12). View[self.pay] is the content of this store.
@@ -167,3 +168,29 @@ package oidc
 
 //@ func NewRandomGenerator
 //@   ensures  secure: result != nil && istype(result, *randomGenerator) && result.(*randomGenerator) != nil
+
+// ---------------------------------------------------------------------------------------------
+// start-up wiring of the session stores (C18, C10): which store, with which timeouts, a filter gets
+// ---------------------------------------------------------------------------------------------
+
+//@ impl (*sessionStoreFactory) SessionStoreFactory (s, k)
+//@   requires wf: s != nil
+
+//@ func NewMemoryStore
+//@   ensures  store: result != nil && istype(result, *memoryStore) && fresh(result.(*memoryStore)) && result.(*memoryStore).absoluteSessionTimeout == absoluteSessionTimeout && result.(*memoryStore).idleSessionTimeout == idleSessionTimeout && result.(*memoryStore).clock == clock && result.(*memoryStore).sessions != nil && result.(*memoryStore).log != nil
+
+//@ func NewRedisStore
+//@   abstractbody
+//@   ensures  store: (result1 == nil) == (result0 != nil)
+//@   ensures  fields: result0 != nil ==> istype(result0, *redisStore) && fresh(result0.(*redisStore)) && result0.(*redisStore).absoluteSessionTimeout == absoluteSessionTimeout && result0.(*redisStore).idleSessionTimeout == idleSessionTimeout
+
+//@ func (*sessionStoreFactory).PreRun
+//@   requires wf: s != nil && s.Config != nil && WFConfig(s.Config) && s.memory == nil
+//@   modifies s.log, s.redis, s.memory, above(watermark())
+//@   ensures  timeouts_wired: result == nil ==> forall i int, j int :: 0 <= i && i < len(s.Config.Chains) && 0 <= j && j < len(s.Config.Chains[i].Filters) && s.Config.Chains[i].Filters[j].GetOidc() != nil ==> s.Get(s.Config.Chains[i].Filters[j].GetOidc()) != nil && StoreAbs(s.Get(s.Config.Chains[i].Filters[j].GetOidc())) == s.Config.Chains[i].Filters[j].GetOidc().GetAbsoluteSessionTimeout() * SECOND && StoreIdle(s.Get(s.Config.Chains[i].Filters[j].GetOidc())) == s.Config.Chains[i].Filters[j].GetOidc().GetIdleSessionTimeout() * SECOND
+//@   ensures  exclusive: result == nil ==> forall i int, j int, i2 int, j2 int :: 0 <= i && i < len(s.Config.Chains) && 0 <= j && j < len(s.Config.Chains[i].Filters) && 0 <= i2 && i2 < len(s.Config.Chains) && 0 <= j2 && j2 < len(s.Config.Chains[i2].Filters) && s.Config.Chains[i].Filters[j].GetOidc() != nil && s.Config.Chains[i2].Filters[j2].GetOidc() != nil && s.Config.Chains[i].Filters[j].GetOidc() != s.Config.Chains[i2].Filters[j2].GetOidc() ==> s.Get(s.Config.Chains[i].Filters[j].GetOidc()).pay != s.Get(s.Config.Chains[i2].Filters[j2].GetOidc()).pay
+//@   loop 1 invariant wf: s != nil && s.Config != nil && WFConfig(s.Config) && s.Config.Chains == $rangeslice1 && s.redis != nil && s.log != nil
+//@   loop 2 invariant wf: s != nil && s.Config != nil && WFConfig(s.Config) && s.Config.Chains == $rangeslice1 && s.Config.Chains[rangeindex1 + 1].Filters == $rangeslice2 && s.redis != nil && s.log != nil
+//@   loop 1 invariant wired1: forall i int, j int :: 0 <= i && i <= rangeindex1 && 0 <= j && j < len(s.Config.Chains[i].Filters) && s.Config.Chains[i].Filters[j].GetOidc() != nil ==> s.Get(s.Config.Chains[i].Filters[j].GetOidc()) != nil && StoreAbs(s.Get(s.Config.Chains[i].Filters[j].GetOidc())) == s.Config.Chains[i].Filters[j].GetOidc().GetAbsoluteSessionTimeout() * SECOND && StoreIdle(s.Get(s.Config.Chains[i].Filters[j].GetOidc())) == s.Config.Chains[i].Filters[j].GetOidc().GetIdleSessionTimeout() * SECOND
+//@   loop 2 invariant wired1: forall i int, j int :: 0 <= i && i <= rangeindex1 && 0 <= j && j < len(s.Config.Chains[i].Filters) && s.Config.Chains[i].Filters[j].GetOidc() != nil ==> s.Get(s.Config.Chains[i].Filters[j].GetOidc()) != nil && StoreAbs(s.Get(s.Config.Chains[i].Filters[j].GetOidc())) == s.Config.Chains[i].Filters[j].GetOidc().GetAbsoluteSessionTimeout() * SECOND && StoreIdle(s.Get(s.Config.Chains[i].Filters[j].GetOidc())) == s.Config.Chains[i].Filters[j].GetOidc().GetIdleSessionTimeout() * SECOND
+//@   loop 2 invariant wired2: forall j int :: 0 <= j && j <= rangeindex2 && s.Config.Chains[rangeindex1 + 1].Filters[j].GetOidc() != nil ==> s.Get(s.Config.Chains[rangeindex1 + 1].Filters[j].GetOidc()) != nil && StoreAbs(s.Get(s.Config.Chains[rangeindex1 + 1].Filters[j].GetOidc())) == s.Config.Chains[rangeindex1 + 1].Filters[j].GetOidc().GetAbsoluteSessionTimeout() * SECOND && StoreIdle(s.Get(s.Config.Chains[rangeindex1 + 1].Filters[j].GetOidc())) == s.Config.Chains[rangeindex1 + 1].Filters[j].GetOidc().GetIdleSessionTimeout() * SECOND
